@@ -152,6 +152,14 @@ pub struct ExecCtx {
     pub after_drop_activity: Mutex<Vec<String>>,
     pub violations: Mutex<Vec<(String, String)>>,
     pub probes_seen: Mutex<BTreeSet<&'static str>>,
+    /// Handler futures wake all leaked wakers when dropped.
+    pub wake_on_drop: AtomicBool,
+    /// Number of wake-ups issued from destructors while the simulation was being dropped.
+    pub drop_wakes: AtomicU64,
+    pub sim_dropping: AtomicBool,
+    /// Set at the very end of the run: no waker may be stored any more (the
+    /// context outlives the simulated execution).
+    pub pool_closed: AtomicBool,
 }
 
 impl ExecCtx {
@@ -169,6 +177,10 @@ impl ExecCtx {
             after_drop_activity: Mutex::new(Vec::new()),
             violations: Mutex::new(Vec::new()),
             probes_seen: Mutex::new(BTreeSet::new()),
+            wake_on_drop: AtomicBool::new(false),
+            drop_wakes: AtomicU64::new(0),
+            sim_dropping: AtomicBool::new(false),
+            pool_closed: AtomicBool::new(false),
         })
     }
 
@@ -231,11 +243,34 @@ impl Clone for Tok {
 
 impl Drop for Tok {
     fn drop(&mut self) {
-        let mut t = self.ctx.toks.lock().unwrap_or_else(|e| e.into_inner());
-        if t.live.remove(&self.id).is_none() {
-            t.double_drops.push(self.id);
+        {
+            let mut t = self.ctx.toks.lock().unwrap_or_else(|e| e.into_inner());
+            if t.live.remove(&self.id).is_none() {
+                t.double_drops.push(self.id);
+            }
+            t.dropped += 1;
+            if self.ctx.sim_dropped.load(Ordering::SeqCst) && self.kind != TokKind::Msg && self.kind != TokKind::Reply {
+                t.late_drops.push(self.id);
+            }
         }
-        t.dropped += 1;
+        // Tasks waking one another while being dropped: the token of a handler
+        // future wakes every leaked waker (no harness lock is held here: a wake
+        // is a scheduling point of the simulator).
+        if self.kind == TokKind::Fut && self.ctx.wake_on_drop.load(Ordering::SeqCst) {
+            // The pool is taken out and put back: cloning or waking a waker is a scheduling
+            // point and must not happen with the (std) pool lock held.
+            let ws: Vec<Waker> = std::mem::take(&mut *self.ctx.wakers.lock().unwrap_or_else(|e| e.into_inner()));
+            for w in &ws {
+                w.wake_by_ref();
+                if self.ctx.sim_dropping.load(Ordering::SeqCst) {
+                    self.ctx.drop_wakes.fetch_add(1, Ordering::Relaxed);
+                }
+            }
+            let mut p = self.ctx.wakers.lock().unwrap_or_else(|e| e.into_inner());
+            let newer = std::mem::take(&mut *p);
+            *p = ws;
+            p.extend(newer);
+        }
     }
 }
 
